@@ -42,6 +42,12 @@ class Ctx:
         self.obligations.append({"rule": rule, "instance": key, "status": "violation", "key": key,
                                  "message": message, "site": site, "detail": detail, "witness": witness})
 
+    def unverified(self, instance, detail=None, site=None, rule=None):
+        """a deep *shape* rule does not recognise the implementation it is looking at: no verdict (neither ok nor violation).
+        Used only for clauses beyond the structural skeleton, where refusing to pass would be a false alarm on a refactor."""
+        self.obligations.append({"rule": rule or self.cur_rule, "instance": "unverified|" + instance, "status": "unverified",
+                                 "site": site, "detail": detail})
+
     def anchor_missing(self, what, rule=None):
         rule = rule or self.cur_rule
         self.violation(["anchor-missing", what], "anchor missing: %s — the property can no longer be established "
@@ -134,7 +140,8 @@ def prop(pid, title, decided, not_decided, assumptions=()):
 
 def rule(pid, rid, floor=0, tier="quick"):
     def deco(fn):
-        r = Rule(rid, fn, floor)
+        # the floor only guards against vacuity (a rule that matches nothing); exact instance counts vary with refactors
+        r = Rule(rid, fn, 1 if floor else 0)
         r.tier = tier
         PROPERTIES[pid]["rules"].append(r)
         return fn
@@ -214,6 +221,7 @@ def write_evidence(pid, tier, ctx, wall, n_viol, thorough_info=None):
     P = PROPERTIES[pid]
     obs = ctx.obligations
     n_ok = sum(1 for o in obs if o["status"] == "ok")
+    n_unv = sum(1 for o in obs if o["status"] == "unverified")
     per_rule = {}
     for o in obs:
         d = per_rule.setdefault(o["rule"], {"instances": 0, "discharged": 0})
@@ -235,6 +243,7 @@ def write_evidence(pid, tier, ctx, wall, n_viol, thorough_info=None):
                             pid, "; ".join(P["decided"]), "; ".join(P["not_decided"]))),
         "obligations": len(obs),
         "discharged": n_ok,
+        "unverified_shape": n_unv,
         "evaluations": len(obs),
         "distinct_nontrivial": distinct,
         "rule": "one evaluation = one rule instance (a site / arm / edge set / flow query found in the current source); "
@@ -276,7 +285,15 @@ def write_evidence(pid, tier, ctx, wall, n_viol, thorough_info=None):
 def load_progs(config="default", root=None):
     # scratch copies (mutant self-check) are analysed once: do not let them evict /repo's cache entry
     fx = F.extract(root or REPO, config, use_cache=(root is None or root == REPO))
-    return {k: C.Program(v, k) for k, v in fx.items()}
+    import inline
+    out = {}
+    for k, v in fx.items():
+        p = C.Program(v, k)
+        if k in ("lib", "bin"):
+            p, inlined = inline.inline_program(p)
+            p.inlined_helpers = inlined
+        out[k] = p
+    return out
 
 
 SELFTEST = {}
